@@ -15,7 +15,7 @@ def api(draw, max_ops=5, links=None):
         # `bare`: an operation without any input (nothing to generate, nothing to negate)
         ops.append({"path": f"/r{i}", "behaviour": draw(st.sampled_from(BEHAVIOURS)), "with_example": draw(st.booleans()), "bounded": draw(st.booleans()), "bare": draw(st.integers(0, 5)) == 0})
     with_links = draw(st.booleans()) if links is None else links
-    return {"ops": ops, "links": with_links, "malformed": draw(st.integers(0, 5)) == 0, "binary_example": draw(st.integers(0, 7)) == 0, "link_target": draw(st.sampled_from(["ok", "ok", "500"])),
+    return {"ops": ops, "links": with_links, "malformed": draw(st.integers(0, 5)) == 0, "binary_example": draw(st.integers(0, 7)) == 0, "link_target": draw(st.sampled_from(["ok", "ok", "500", "500-for-created"])), "link_ops": draw(st.sampled_from(["get", "get", "get+delete"])),
             # how the API root answers the capability probe (only matters when the probing phase is enabled)
             "probe": draw(st.sampled_from([None, None, "bad-gzip", "drop", "redirect-loop", "status-400", "truncated"]))}
 
@@ -50,6 +50,9 @@ def build_doc(api_: dict) -> dict:
         paths["/c"] = {"post": {"operationId": "c", "requestBody": {"required": True, "content": {"application/json": {"schema": {"type": "object", "properties": {"n": {"type": "integer"}}, "required": ["n"]}}}},
                                 "responses": {"201": {"description": "ok", "content": {"application/json": {"schema": {"type": "object"}}}, "links": {"l": {"operationId": "g", "parameters": {"id": "$response.body#/id"}}}}}}}
         paths["/c/{id}"] = {"get": {"operationId": "g", "parameters": [{"name": "id", "in": "path", "required": True, "schema": {"type": "integer"}}], "responses": {"200": {"description": "ok", "content": {"application/json": {"schema": {"type": "object"}}}}}}}
+        if api_.get("link_ops") == "get+delete":
+            paths["/c"]["post"]["responses"]["201"]["links"]["ld"] = {"operationId": "d", "parameters": {"id": "$response.body#/id"}}
+            paths["/c/{id}"]["delete"] = {"operationId": "d", "parameters": [{"name": "id", "in": "path", "required": True, "schema": {"type": "integer"}}], "responses": {"200": {"description": "ok", "content": {"application/json": {"schema": {"type": "object"}}}}}}
     if api_["malformed"]:
         paths["/broken"] = {"get": {"parameters": [{"$ref": "#/components/parameters/Nope"}], "responses": {"200": {"description": "ok"}}}}
     if api_.get("binary_example"):
@@ -67,7 +70,8 @@ def make_script(api_: dict):
         if req.path == "/c":
             return loopback.json_reply(201, {"id": 7})
         if req.path.startswith("/c/"):
-            if api_.get("link_target") == "500":
+            if api_.get("link_target") == "500" or (api_.get("link_target") == "500-for-created" and req.path == "/c/7"):
+                # ("for created": only the identifier POST /c hands out fails - a failure the unit phases practically never meet)
                 return loopback.json_reply(500, {"error": "x"})
             return loopback.json_reply(200, {"id": 7})
         op = by_path.get(req.path)
